@@ -2073,6 +2073,24 @@ func vLemmaWriteState(c *Collection, dst io.Writer) {
 	vAssert("no-further-tokens", vWN <= 6)
 }
 
+// The rows a snapshot holds (C08; D15, known finding): "nothing that was not committed when it returned". An insert
+// in flight has reserved its offset by setting the offset's bit in the fill list (next(): vLemmaNextOffset#now-marked)
+// - the same bit a committed row has. The row buffer writeState builds must not hold an Insert for an offset that is
+// only reserved: if that transaction rolls back, or commits after the snapshot has returned, the restored collection
+// has a row the primary never committed. The pinned code cannot tell the two apart (one bit), so this clause fails.
+//
+//@ lemma props=C08 mode=paths real=column.(*Collection).writeState use=commit.(*Buffer).PutOperation,column.(*Collection).chunks
+func vLemmaSnapshotHoldsCommittedRowsOnly(c *Collection, dst io.Writer, reserved uint32) {
+	vAssume(c != nil && c.txns != nil && c.slock != nil && vNothingHeld() && vWErr != nil && len(c.fill) <= 1<<25 && len(c.commits) < 1<<20)
+	vAssume(int(reserved>>6) < len(c.fill) && vBit(c.fill, reserved)) // an offset reserved by a transaction in flight
+	vCol = c
+	vWN, vWFailed, vPoolPuts, vAcquiredPages, vDidSnapshotOK, vPutOps = 0, false, 0, 0, 0, 0
+	c.writeState(dst)
+	if vPutOps > 0 {
+		vAssert("no-insert-for-an-offset-only-reserved-by-a-transaction-in-flight", vPutOpIdx != reserved)
+	}
+}
+
 // ---------------------------------------------------------------------------------------------
 // Dropping a computed column (C19, C03, C16): DropTrigger / DropIndex detach the computed column from the column it
 // watches WHILE ITS NAME STILL RESOLVES (DeleteIndex finds what to detach by looking the name up) and only then
